@@ -5,6 +5,8 @@
 #include "draco/core/decoder_buffer.cc"
 #include "draco/core/encoder_buffer.cc"
 #include "draco/attributes/geometry_indices.h"
+#include "draco/compression/attributes/prediction_schemes/mesh_prediction_scheme_multi_parallelogram_decoder.h"
+#include "draco/compression/attributes/prediction_schemes/mesh_prediction_scheme_multi_parallelogram_encoder.h"
 #include "draco/compression/attributes/prediction_schemes/mesh_prediction_scheme_parallelogram_decoder.h"
 #include "draco/compression/attributes/prediction_schemes/mesh_prediction_scheme_parallelogram_encoder.h"
 #include "draco/compression/attributes/prediction_schemes/mesh_prediction_scheme_parallelogram_shared.h"
@@ -84,6 +86,8 @@ struct LiteTable {
   CornerIndex Next(CornerIndex c) const { return c == kInvalidCornerIndex ? c : ((c.value() % 3) == 2 ? c - 2 : c + 1); }
   CornerIndex Previous(CornerIndex c) const { return c == kInvalidCornerIndex ? c : ((c.value() % 3) == 0 ? c + 2 : c - 1); }
   VertexIndex Vertex(CornerIndex c) const { return c == kInvalidCornerIndex ? kInvalidVertexIndex : VertexIndex(c2v[c.value()]); }
+  CornerIndex SwingRight(CornerIndex c) const { return Previous(Opposite(Previous(c))); }
+  CornerIndex SwingLeft(CornerIndex c) const { return Next(Opposite(Next(c))); }
 };
 struct LiteMD {
   typedef LiteTable CornerTable;
@@ -145,6 +149,30 @@ extern "C" void h_pgram_rt(void) {
   const bool ok3 = dec.MeshPredictionSchemeParallelogramDecoder::ComputeOriginalValues(corr, out, NE * NCOMP, NCOMP, nullptr);
   verif_assert(ok3, "decoder succeeds");
   for (int i = 0; i < NE * NCOMP; ++i) verif_assert(out[i] == data[i], "parallelogram predictor round trip returns the input");
+  verif_release(v2d); verif_release(d2c);
+  verif_reach();
+}
+
+// multi-parallelogram predictor: real encoder loop -> real decoder loop, arbitrary in-range table with a symmetric
+// opposite pairing (fan walks terminate), values in the quantized range
+extern "C" void h_multi_rt(void) {
+  LiteTable ct; int32_t v2d_s[NE]; std::vector<int32_t> v2d; CornerIndex d2c_s[NE]; std::vector<CornerIndex> d2c;
+  any_table(&ct, v2d_s, NE);
+  for (int c = 0; c < NC; ++c)
+    if (ct.opp[c] != kInvalidCornerIndex.value()) verif_assume(ct.opp[ct.opp[c]] == (uint32_t)c && ct.opp[c] / 3 != (uint32_t)c / 3);
+  for (int i = 0; i < NE; ++i) { uint32_t c = nondet_u32(); verif_assume(c < NC); d2c_s[i] = CornerIndex(c); }
+  verif_adopt(v2d, v2d_s, NE, NE); verif_adopt(d2c, d2c_s, NE, NE);
+  LiteMD md{&ct, &v2d, &d2c};
+  int32_t data[NE * NCOMP], corr[NE * NCOMP], out[NE * NCOMP];
+  for (int i = 0; i < NE * NCOMP; ++i) { data[i] = nondet_i32(); verif_assume(data[i] >= -(1 << DATA_BITS) && data[i] < (1 << DATA_BITS)); }
+  WE et;
+  MeshPredictionSchemeMultiParallelogramEncoder<int32_t, WE, LiteMD> enc(nullptr, et, md);
+  verif_assert(enc.MeshPredictionSchemeMultiParallelogramEncoder::ComputeCorrectionValues(data, corr, NE * NCOMP, NCOMP, nullptr), "encoder succeeds");
+  WD dt; dt.set_min_value(enc.transform().min_value()); dt.set_max_value(enc.transform().max_value());
+  verif_assert(dt.InitCorrectionBounds(), "decoder accepts the bounds");
+  MeshPredictionSchemeMultiParallelogramDecoder<int32_t, WD, LiteMD> dec(nullptr, dt, md);
+  verif_assert(dec.MeshPredictionSchemeMultiParallelogramDecoder::ComputeOriginalValues(corr, out, NE * NCOMP, NCOMP, nullptr), "decoder succeeds");
+  for (int i = 0; i < NE * NCOMP; ++i) verif_assert(out[i] == data[i], "multi-parallelogram predictor round trip returns the input");
   verif_release(v2d); verif_release(d2c);
   verif_reach();
 }
